@@ -54,7 +54,7 @@ Thr == {AbsentV, IntV(50), IntV(51)}
 Levels == {49, 50, 51}
 
 (* ------------------------------------------------------------------------ *)
-Strata == {"create", "early", "join", "invite", "invite3p", "leaveself", "kick", "ban", "knock", "badmember",
+Strata == {"create", "early", "join", "invite", "invite3p", "leaveself", "kick", "ban", "knock", "other3p", "badmember",
            "generic", "tpievent", "plscalar", "plmaps", "plkinds", "redaction"}
 
 VARIABLES phase, stratum, v, evs, e
@@ -167,6 +167,17 @@ NextKnock ==
      /\ evs' = Base \cup Members(One(UA, sm)) \cup Members(One(UB, "leave")) \cup JR(jr)
      /\ e' = [MemberBy(UA, IF self THEN UA ELSE UB, "knock") EXCEPT !.id = "$e"]
 
+\* ---- a third_party_invite object on member events that are NOT invites: neither the rules nor the selection look at it
+Tpis3 == { [present |-> TRUE, signed |-> FALSE, hasmxid |-> FALSE, hastoken |-> FALSE, mxid |-> NoUser, token |-> "", sigok |-> FALSE],
+           [present |-> TRUE, signed |-> TRUE, hasmxid |-> TRUE, hastoken |-> TRUE, mxid |-> UB, token |-> "tok", sigok |-> TRUE],
+           [present |-> TRUE, signed |-> TRUE, hasmxid |-> FALSE, hastoken |-> FALSE, mxid |-> NoUser, token |-> "", sigok |-> FALSE] }
+NextOther3p ==
+  \E t \in Tpis3, m \in {"join", "leave", "ban", "knock"}, jr \in {"public", "invite", "knock"}, sm \in {"join", "leave", "invite"} :
+     LET target == IF m = "ban" THEN UB ELSE UA IN
+     /\ evs' = Base \cup Members(One(UA, sm)) \cup (IF target = UB THEN Members(One(UB, "join")) ELSE {}) \cup JR(jr)
+                \cup {PLEv(PLUsers(One(UA.name, IntV(50))))}
+     /\ e' = [MemberBy(UA, target, m) EXCEPT !.id = "$e", !.c.tpi = t]
+
 \* ---- malformed / unknown membership events
 NextBadMember ==
   \E m \in {"absent", "org.other", "join"}, hk \in BOOLEAN :
@@ -267,6 +278,7 @@ Next == /\ phase = 0 /\ phase' = 1 /\ UNCHANGED <<stratum, v>>
              [] stratum = "kick" -> NextKick
              [] stratum = "ban" -> NextKick
              [] stratum = "knock" -> NextKnock
+             [] stratum = "other3p" -> NextOther3p
              [] stratum = "badmember" -> NextBadMember
              [] stratum = "generic" -> NextGeneric
              [] stratum = "tpievent" -> NextTpiEvent
